@@ -11,7 +11,8 @@ PID = "C01"
 
 
 def is_heavy(e):
-    return any(t in e.tags for t in ("pow", "lshift", "rshift")) and "ss" in e.tags
+    """secret exponent / shift count (secret on the right-hand side): 2^n paths and chains of products"""
+    return any(t in e.tags for t in ("pow", "lshift", "rshift")) and ("ss" in e.tags or "cs" in e.tags)
 
 
 def jobs(tier):
